@@ -6,3 +6,24 @@ Open Scope Z_scope.
 
 Example nested_shift_sums : zjac (fun _ => 3) 0 (EShift 1 (EAdd (EVar 0) (EShift (-1) (EShift 1 (EVar 0))))) = Some [((1, 0), 2)].
 Proof. vm_compute. reflexivity. Qed.
+
+(** the rationals satisfy the hypotheses of C02.2 (ring, a/b = a * inv b, inv a * a = 1, a*a <> 0), and a program with a
+    quotient, a power and nested shifts has the expected entries there:  y = x0(1) / x1 ** 2  at x0 = 3, x1 = 2 :
+    dy_t/dx0_{t+1} = 1/4,   dy_t/dx1_t = -2 * 3 / 2^3 = -3/4 *)
+From Coq Require Import QArith Qcanon.
+Definition qjac := jac_entry Qc (Q2Qc 0) (Q2Qc 1) Qcplus Qcmult Qcminus Qcopp Qcdiv (fun x => Qc_eq_bool x (Q2Qc 0)).
+Example rationals_are_an_instance :
+  ring_theory (Q2Qc 0) (Q2Qc 1) Qcplus Qcmult Qcminus Qcopp eq /\
+  (forall a b, Qcdiv a b = Qcmult a (Qcinv b)) /\ (forall a, a <> Q2Qc 0 -> Qcmult (Qcinv a) a = Q2Qc 1) /\ (forall a, a <> Q2Qc 0 -> Qcmult a a <> Q2Qc 0) /\
+  (forall x, Qc_eq_bool x (Q2Qc 0) = true -> x = Q2Qc 0).
+Proof.
+  split; [exact Qcrt|]. split; [reflexivity|]. split; [exact Qcmult_inv_l|]. split.
+  - intros a Ha H. apply Qcmult_integral in H. tauto.
+  - intros x. apply Qc_eq_bool_correct.
+Qed.
+Example quotient_and_power :
+  let ss := fun x : nat => match x with O => Q2Qc 3 | _ => Q2Qc 2 end in
+  let e := EDiv (EShift 1 (EVar 0)) (EPow (EVar 1) 1) in
+  option_map (map (fun kx => (fst kx, this (snd kx)))) (qjac ss 0%nat e) = Some [((1, 0)%Z, (1 # 4)%Q)] /\
+  option_map (map (fun kx => (fst kx, this (snd kx)))) (qjac ss 1%nat e) = Some [((0, 0)%Z, ((-3) # 4)%Q)].
+Proof. vm_compute. split; reflexivity. Qed.
